@@ -8,7 +8,7 @@ construct is carried into the verified text.
 """
 from .rustlex import lex
 
-KEEP_DERIVES = {"Clone", "Copy", "PartialEq", "Eq"}
+KEEP_DERIVES = {"Clone", "Copy", "PartialEq", "Eq", "Hash"}
 DROP_ATTRS = {"error", "serde", "from", "source", "doc"}
 DROP_STMT_MACROS = {("log", "trace"), ("log", "debug"), ("log", "info"), ("log", "warn"),
                     ("log", "error"), ("eprintln",), ("println",), ("eprint",), ("print",)}
